@@ -3,6 +3,7 @@
 package main
 
 import (
+	"bytes"
 	"context"
 	"encoding/base64"
 	"fmt"
@@ -62,10 +63,7 @@ func newC02gen(r *rng) *c02gen {
 	st := c.g.genStruct(0)
 	c.root = st
 	if r.chance(12) { // non-struct top-level descriptor
-		c.root = c.g.genType(1)
-		if c.root.K == thrift.STRING { // the unquoted-string special case of impl.go is outside the property
-			c.root = st
-		}
+		c.root = c.g.genType(1) // incl. STRING / binary (the unquoted-string special case of impl.go is modelled by j2t_do)
 	}
 	// recursive types: a struct refers to itself / an earlier struct
 	if r.chance(30) {
@@ -965,6 +963,8 @@ func countNodes(v *Val) int {
 
 // ---- running the implementation ---------------------------------------------------------------
 
+var c02Held, c02HeldCopy []byte // the latest non-empty result of Do, as returned / as copied at that moment
+
 type c02res struct {
 	cap int
 	pre []byte
@@ -1021,6 +1021,15 @@ func c02Run(r *rng, cv *j2t.BinaryConv, desc *thrift.TypeDescriptor, doc []byte,
 		return res
 	}
 	add(-1, nil, c02ErrClass(e0), o0)
+	// a result handed out by an EARLIER Do must still hold its bytes after this Do (the working buffer is pooled):
+	// observed as error class 11 on the current case
+	if c02Held != nil && !bytes.Equal(c02Held, c02HeldCopy) {
+		add(-2, nil, 11, nil)
+	}
+	c02Held, c02HeldCopy = nil, nil
+	if e0 == nil && len(o0) > 0 {
+		c02Held, c02HeldCopy = o0, append([]byte(nil), o0...)
+	}
 	if !full {
 		return res
 	}
@@ -1077,6 +1086,9 @@ func genC02(r *rng, n int) {
 	docs := 0
 	// special classes: depth limit, bitmap cache, dense output (capacity sweep), large documents, hand-written texts
 	docs += genC02Special(r, 4)
+	for k := 0; k < 2+n/600; k++ {
+		docs += genC02Special(r, 5)
+	}
 	for k := 0; k < 1+n/700; k++ {
 		docs += genC02Special(r, 0)
 	}
